@@ -61,6 +61,20 @@ pub struct NodeData {
     // pub next: Option<String>,
 }
 
+/// what is stored of a node: `NodeData` and the nodes built below it at run time
+#[derive(Debug, Clone, Serialize, Deserialize)]
+pub struct StoredNode {
+    pub id: String,
+    pub content: NodeContent,
+    pub level: usize,
+    /// nodes built below this node at run time, in order
+    #[serde(default, skip_serializing_if = "Vec::is_empty")]
+    pub nodes: Vec<StoredNode>,
+    /// a run-time node that follows its previous sibling instead of hanging below the parent
+    #[serde(default, skip_serializing_if = "std::ops::Not::not")]
+    pub chained: bool,
+}
+
 impl NodeContent {
     pub fn id(&self) -> String {
         match self {
@@ -276,21 +290,65 @@ impl Node {
         self.content.tag()
     }
 
-    #[allow(clippy::inherent_to_string)]
-    pub fn to_string(&self) -> String {
-        let data = NodeData {
+    pub fn data(&self) -> StoredNode {
+        StoredNode {
             id: self.id.clone(),
             content: self.content.clone(),
             level: self.level,
-        };
-        serde_json::to_string(&data).unwrap()
+            nodes: self
+                .nodes
+                .read()
+                .unwrap()
+                .iter()
+                .map(|n| n.data())
+                .collect(),
+            chained: self.parent.read().unwrap().upgrade().is_none()
+                && self.prev().upgrade().is_some(),
+        }
+    }
+
+    #[allow(clippy::inherent_to_string)]
+    pub fn to_string(&self) -> String {
+        serde_json::to_string(&self.data()).unwrap()
+    }
+
+    /// rebuild the run-time nodes below this node from their stored description
+    /// and hand every rebuilt node to `found`
+    pub fn restore_nodes(self: &Arc<Self>, nodes: &[StoredNode], found: &mut Vec<Arc<Node>>) {
+        if !self.nodes.read().unwrap().is_empty() {
+            return;
+        }
+        let mut prev = self.clone();
+        for data in nodes {
+            let node = self.append_node(&data.id, data.content.clone(), data.level);
+            if data.chained {
+                prev.set_next(&node, true);
+            } else {
+                node.set_parent(self);
+            }
+            prev = node.clone();
+            node.restore_nodes(&data.nodes, found);
+            found.push(node);
+        }
     }
 
     pub fn from_str(s: &str, tree: &node_tree::NodeTree) -> Arc<Self> {
+        Self::from_str_with(s, tree, &std::collections::HashMap::new())
+    }
+
+    /// like `from_str`, for a process whose run-time nodes have been rebuilt into `dynamic`
+    pub fn from_str_with(
+        s: &str,
+        tree: &node_tree::NodeTree,
+        dynamic: &std::collections::HashMap<String, Arc<Node>>,
+    ) -> Arc<Self> {
         let data: NodeData = serde_json::from_str(s).unwrap();
         let ret = Arc::new(Self::new(&data.id, data.content, data.level));
         if let Some(node) = tree.node(&ret.id) {
             return node;
+        }
+        if let Some(node) = dynamic.get(&ret.id) {
+            return node.clone();
         }
         // for c in &data.children {
         //     if let Some(n) = tree.node(c) {
